@@ -98,6 +98,10 @@ def expected(spec, mnemonic_case="upper", null_policy="strict", token_value=floa
                 col = []
                 for i in range(r):
                     tok = toks[i * c + j]
+                    if len(tok) >= 2 and tok[0] == tok[-1] and tok[0] in "\"'":
+                        tok = toks[i * c + j] = tok[1:-1]  # a quoted cell: its content is the text between the quotes
+                        col.append(tok)
+                        continue
                     try:
                         col.append(token_value(tok))
                     except ValueError:
